@@ -882,15 +882,55 @@ class Evaluator:
                         continue
                     rec = {'node': e, 'world': W2, 'lo': a, 'hi': hi, 'pos': posv, 'usets': []}
                     self.loops.append(rec)
+                    # lock-step counters: a tracked integer advanced by exactly one top-level `x += 1`
+                    # per iteration holds `x0 + (v - a)` at the top of the iteration with loop value v
+                    # (what `.enumerate()` would have supplied)
+                    W_after = W2
+                    steps = self._lockstep_counters(e['ch'][1], W2)
+                    if steps:
+                        W_after = W2.fork()
+                        for lid_ in steps:
+                            w.ints[lid_] = add(W2.ints[lid_], sub(posv, a))
+                            W_after.ints.pop(lid_, None)      # after the loop: not tracked
                     if w.ok():
                         self.loop_stack.append(rec)
                         self.exec_body(e['ch'][1], w)
                         self.loop_stack.pop()
-                    out.append(W2)
+                    out.append(W_after)
             return out or [W]
         self.loops.append({'node': e, 'world': W, 'lo': None, 'hi': None, 'pos': None,
                            'usets': [], 'unknown': src(it)[:60]})
         return [W]
+
+    def _lockstep_counters(self, body, W):
+        body = peel(body)
+        if body.get('k') != 'Block':
+            return []
+        inc = {}
+        for st in body.get('stmts', []):
+            x = peel(st.get('e') or {}) if st.get('k') in ('Semi', 'Expr') else {}
+            t = peel(x['ch'][0]) if x.get('k') in ('AssignOp', 'Assign') and x.get('ch') else {}
+            if t.get('res') != 'local' or t.get('local') not in W.ints:
+                continue
+            one = False
+            if x.get('k') == 'AssignOp' and x.get('op') == 'AddAssign':
+                r = peel(x['ch'][1])
+                one = r.get('k') == 'Lit' and r.get('v') == '1'
+            elif x.get('k') == 'Assign':
+                r = peel(x['ch'][1])
+                if r.get('k') == 'Binary' and r.get('op') == 'Add':
+                    p_, q_ = peel(r['ch'][0]), peel(r['ch'][1])
+                    one = (p_.get('local') == t['local'] and q_.get('k') == 'Lit' and q_.get('v') == '1') or \
+                        (q_.get('local') == t['local'] and p_.get('k') == 'Lit' and p_.get('v') == '1')
+            inc.setdefault(t['local'], []).append(one)
+        out = []
+        for lid, ones in inc.items():
+            # exactly one unconditional `+ 1` at the top level of the body and no other assignment
+            n_assign = sum(1 for y in walk(body) if y.get('k') in ('Assign', 'AssignOp') and y.get('ch') and
+                           peel(y['ch'][0]).get('local') == lid)
+            if ones == [True] and n_assign == 1:
+                out.append(lid)
+        return out
 
     # ------------------------------------------------------------ closures as element maps
     def _apply_map(self, c, s, W):
@@ -907,6 +947,8 @@ class Evaluator:
         if head.get('k') == 'MethodCall' and head.get('method') in ('unwrap', 'cast', 'into'):
             head = peel(head['ch'][0])
         ok_head = (head.get('k') == 'Call' and peel(head['ch'][0]).get('res') == 'local') or \
+            (head.get('k') == 'Call' and str(head.get('callee_res', '')).startswith('Ctor') and
+             strip_generics(head.get('callee', '')).endswith('Some')) or \
             (head.get('k') == 'MethodCall' and head.get('method') == 'checked_sub')
         if not ok_head:
             return None
